@@ -293,6 +293,22 @@ func AnalyzeLocks(body *ast.BlockStmt, entry LockSet, opts *FlowOpts, visit Visi
 	if entry == nil {
 		entry = LockSet{}
 	}
+	if opts.OnExit != nil && len(entry) > 0 {
+		// exits report what this body acquired, not what it was entered with (a literal running
+		// inside its caller's or a locking wrapper's critical section)
+		o2 := *opts
+		outer := opts.OnExit
+		o2.OnExit = func(pos token.Pos, held LockSet) {
+			own := LockSet{}
+			for k, m := range held {
+				if entry[k] < m {
+					own[k] = m
+				}
+			}
+			outer(pos, own)
+		}
+		opts = &o2
+	}
 	g := cfg.New(body, mayReturn(opts.Info))
 	in := make([]LockSet, len(g.Blocks))
 	visited := make([]bool, len(g.Blocks))
@@ -566,24 +582,30 @@ func (w *walker) callParts(call *ast.CallExpr, stack []ast.Node, deferred bool) 
 	}
 	w.node(call.Fun, st2)
 	sync := w.opts.SyncCallee == nil || w.opts.SyncCallee(call)
-	for _, a := range call.Args {
+	for ai, a := range call.Args {
+		// the set a function argument runs under: the caller's, plus the callee's own lock when the
+		// callee is a locking wrapper for this argument (lockwrap.go)
+		entry := func() LockSet {
+			if w.visit == nil {
+				return w.st
+			}
+			if ns, ok := wrapperLocksAt(w.opts.Info, call, ai, w.st); ok {
+				return ns
+			}
+			if sync {
+				return w.st
+			}
+			return LockSet{}
+		}
 		switch av := a.(type) {
 		case *ast.FuncLit:
-			if sync {
-				w.lit(av, w.st)
-			} else {
-				w.lit(av, LockSet{})
-			}
+			w.lit(av, entry())
 			continue
 		case *ast.Ident:
 			if w.pendingLits != nil {
 				if obj := w.opts.Info.Uses[av]; obj != nil {
 					if lit, ok := w.pendingLits[obj]; ok {
-						if sync {
-							w.lit(lit, w.st)
-						} else {
-							w.lit(lit, LockSet{})
-						}
+						w.lit(lit, entry())
 						continue
 					}
 				}
